@@ -88,6 +88,9 @@ def run(ctx):
     ]
     ctx.mc(SPEC_DIR, "PQMC", "MC_thorough.cfg" if thorough else "MC.cfg", timeout=3000, xmx="16g",
            required_actions=["PQMC!MCPush", "PQMC!MCPop", "PQMC!MCRemove", "PQMC!MCClear", "PQMC!MCTop"])
+    # implementation-shaped layer: binary heap + back-pointer array (sift up/down/either, lazy handle array)
+    ctx.mc(SPEC_DIR, "PQHeap", "MC_heap.cfg" if thorough else "MC_heap_quick.cfg", timeout=3000, xmx="12g",
+           required_actions=["PQHeap!Pop", "PQHeap!Clear"])
     scripts, _ = tlc.gen_scripts(SPEC_DIR, "PQMC", "Gen.cfg", ctx.outdir, num=600 if not thorough else 8000, depth=40,
                                  seed=ctx.seed, workers=4)
     rng = random.Random(ctx.seed)
